@@ -5,6 +5,7 @@ CONSTANTS
   Stems = {"def"}
   SupTpls = {FALSE, TRUE}
   NsVals = {FALSE}
+  Shapes = {"plain", "sibling", "rsibling"}
   Wipes = FALSE
   PFiles = {"dsdlD"}
   MaxLo = 0
@@ -15,6 +16,7 @@ CONSTANTS
   QuickOnly = FALSE
   FwdOmitToList = TRUE
   ListDeps = FALSE
+  OwnByPrefix = FALSE
   ListUserSup = TRUE
 INVARIANT RefinesInputs
 CHECK_DEADLOCK FALSE
